@@ -18,7 +18,8 @@ import (
 // order, so that the same instances, wrappers, bound-method closures and
 // thunks are requested by several per-package builders.
 type ProgSpec struct {
-	Users []UserSpec `json:"users"`
+	Users        []UserSpec `json:"users"`
+	LibFromTypes bool       `json:"lib_from_types,omitempty"` // the library package is created without syntax
 }
 
 type UserSpec struct {
@@ -269,6 +270,7 @@ func genProg(r *genmod.Rng, tier string) ProgSpec {
 		n = 2 + r.N(12)
 	}
 	var ps ProgSpec
+	ps.LibFromTypes = r.P(200)
 	elems := []string{"int", "int", "string", "float64", "lib.Base", "[]int"}
 	common := elems[r.N(len(elems))]
 	for i := 0; i < n; i++ {
